@@ -9,11 +9,14 @@ pub mod util;
 pub mod spec;
 pub mod c09;
 pub mod c10;
+pub mod recs;
+pub mod c20;
 
 #[cfg(not(kani))]
 pub fn registry() -> Vec<(&'static str, fn(&mut nd::TapeNd))> {
     let mut v = Vec::new();
     v.extend(c09::registry());
     v.extend(c10::registry());
+    v.extend(c20::registry());
     v
 }
